@@ -23,7 +23,7 @@ def Seg.all : Seg → Toks
   | .attr _ t => t
   | .toks t => t
 
-def dwRoot : MPath := ⟨true, [⟨"derive_where", false⟩]⟩
+def dwRoot : MPath := ⟨true, [⟨"derive_where", false⟩], none⟩
 
 /-- The search for the `crate = ..` option. -/
 def findCrate : List RawAttr → Option MPath → R (Option MPath)
@@ -40,7 +40,9 @@ def findCrate : List RawAttr → Option MPath → R (Option MPath)
             | .other => .error Err.optionSyntax : R MPath) with
           | .error e => .error e
           | .ok p =>
-            if p = dwRoot then .error (.pathUnnecessary "::derive_where")
+            -- a path with generic arguments cannot head an attribute path (`fix:` commit in /repo)
+            if p.args.isSome then .error Err.optionSyntax
+            else if p = dwRoot then .error (.pathUnnecessary "::derive_where")
             else match acc with
               | some _ => .error (.optionDuplicate "crate")
               | none => findCrate rest (some p)
@@ -182,13 +184,24 @@ attributes with bound lists, `#[repr]`, foreign attributes ..), and it then is t
 forwarded derive and of the visited marker. -/
 theorem C14_crate_anywhere (pre post : List RawAttr) (b : DWBody) (cp p : MPath) (v : NVal)
     (hb : b.parseNonEmpty = .ok [.nameValue cp v]) (hcp : cp.isIdent "crate" = true)
-    (hv : v = .path p ∨ v = .strPath p) (hp : p ≠ dwRoot)
+    (hv : v = .path p ∨ v = .strPath p) (hp : p ≠ dwRoot) (hargs : p.args = none)
     (hpre : ∀ a ∈ pre, ¬ a.IsCrateOpt) (hpost : ∀ a ∈ post, ¬ a.IsCrateOpt) :
     findCrate (pre ++ .dw b :: post) none = .ok (some p) := by
   rw [findCrate_skip_all pre _ none hpre]
   have hpost' : findCrate post (some p) = .ok (some p) := by
     have := findCrate_skip_all post [] (some p) hpost
     simpa [findCrate] using this
-  rcases hv with rfl | rfl <;> simp [findCrate, hb, Meta.getPath, hcp, hp, hpost']
+  rcases hv with rfl | rfl <;> simp [findCrate, hb, Meta.getPath, hcp, hp, hargs, hpost']
+
+/-- A `crate` path with generic arguments (`crate = foo::<u8>`, also inside a string) is refused with an ordinary
+error wherever the option stands — it could not head the path of the `derive_where_visited` attribute (before the
+`fix:` commit the macro panicked while building that attribute). -/
+theorem C16_crate_args_rejected (pre post : List RawAttr) (b : DWBody) (cp p : MPath) (v : NVal)
+    (hb : b.parseNonEmpty = .ok [.nameValue cp v]) (hcp : cp.isIdent "crate" = true)
+    (hv : v = .path p ∨ v = .strPath p) (hargs : p.args.isSome = true)
+    (hpre : ∀ a ∈ pre, ¬ a.IsCrateOpt) :
+    findCrate (pre ++ .dw b :: post) none = .error .optionSyntax := by
+  rw [findCrate_skip_all pre _ none hpre]
+  rcases hv with rfl | rfl <;> simp [findCrate, hb, Meta.getPath, hcp, hargs]
 
 end DW
